@@ -1266,6 +1266,24 @@ func GenC15(seed, index uint64) *Run {
 	}
 	pE := 0.4 + 0.4*r.F()
 	run.Tasks = [][]Op{g.program(n, pE, 0.05)}
+	// now and then a burst of 2^8..2^17 (2^19 in the deep tier) encoding calls in
+	// a row somewhere in the history (see Env.burst)
+	pBurst := 1.0 / 800
+	if Deep {
+		pBurst = 1.0 / 250
+	}
+	if r.P(pBurst) {
+		maxLog := 17
+		if Deep {
+			maxLog = 19
+		}
+		count := 1 << uint(8+r.N(maxLog-7))
+		count += r.N(count)
+		ops := run.Tasks[0]
+		at := r.N(len(ops) + 1)
+		b := Op{K: "burst", R: r.N(run.NE), U: uint64(count)}
+		run.Tasks[0] = append(append(append([]Op{}, ops[:at]...), b), ops[at:]...)
+	}
 	g.finishEntropy()
 	run.Config = map[string]any{"alias_rate": g.aliasRate, "bad_rate": g.badRate, "ret_rate": g.retRate, "scribble_rate": g.scribRate}
 	return run
